@@ -33,6 +33,9 @@ var hostileTemplates = []string{
 	// two values with the same shared sub-structure, built separately: comparing them must stay linear in the number of containers
 	"a=[1]; i=0; while i<{m} { a=[a,a]; i=i+1 }; b=[1]; j=0; while j<{m} { b=[b,b]; j=j+1 }; a == b", "a=[{v}]; b=[{v}]; i=0; while i<{m} { a=[a,a]; b=[b,b]; i=i+1 }; a != b",
 	"a={'k':1}; b={'k':1}; i=0; while i<{m} { a={'x':a,'y':a}; b={'x':b,'y':b}; i=i+1 }; [a == b, a != b]", "a=[1]; b=[1]; i=0; while i<{m} { a=[a,a]; b=[b,b]; i=i+1 }; [[a],[a]] == [[b],[b]]",
+	// one operand reaches the same container twice (through a variable), the other holds two containers of its own there
+	"x=[{v}]; [x,x] == [[{v}],[{v}]]", "x=[{v}]; [[{v}],[{v}]] == [x,x]", "x=[{v}]; y=[x,x]; y != [[{v}],[{v}]]", "x={'k':{v}}; [x,x] == [{'k':{v}},{'k':{v}}]",
+	"x=[{v}]; {'a':x,'b':x} == {'a':[{v}],'b':[{v}]}", "x=[1]; [x,x] == [[1],[2]]", "x=[1]; [x,[x]] != [[1],[[2]]]", "x=[{v},{v}]; y=[x,x,x]; [y == [[{v},{v}],[{v},{v}],x], y != [x,[{v},{v}],[{v},{v}]]]",
 	// holes that leave no value: only separators, only a comment, only a block (the empty string is their value)
 	"`a{;}b`", "`a{%;%}b{ // nothing\n }c`", "x = {v}; `a{;}b{% if 0 { 1 } %}c{ // c\n}`", "`{;}{;}{;}`", "\x1e{;}{% ; %}\x1e", "`a{ {v} }b{;}c{ func g(n) { n }; g({v}) }d`",
 	"x=[1]; y=[1]; x[0]=y; y[0]=x; x==y", "x={}; y={}; x.a=y; y.a=x; x=={v}", "x=[1]; x[0]=x; x==x", "x=[1]; x[0]=x; [x]==[[x]]",
